@@ -372,6 +372,11 @@ func (p *pgBoundValue) GetData(setting config.ColumnEncryptionSetting) ([]byte, 
 			return decoded, nil
 		}
 	case base.BinaryFormat:
+		if len(p.data) == 0 {
+			// NULL: there is no number to convert and nothing to protect; an error here would make
+			// the whole Bind packet go to the database unchanged, with the other values in plaintext
+			return p.data, nil
+		}
 		if setting.IsTokenized() || setting.IsSearchable() || setting.OnlyEncryption() {
 			switch setting.GetEncryptedDataType() {
 			case common.EncryptedType_Int32, common.EncryptedType_Int64:
